@@ -54,6 +54,7 @@ fn main() {
             "resperr" => Some(ctl_scen::resperr_family),
             "mt" => Some(ctl_scen::mt_family),
             "ahead" => Some(ctl_scen::ahead_family),
+            "vanish" => Some(ctl_scen::vanish_family),
             _ => None,
         };
         if let Some(f) = fam {
